@@ -5,7 +5,7 @@ CONSTANTS
   MaxCap = @MAXCAP@
   ReserveSet = @RESERVE@
   ValMod = @VALMOD@
-  Pair = @PAIR@
+  PairCap = @PAIRCAP@
 INIT Init
 NEXT Next
 INVARIANTS SliceRefines SliceObsAgree CapBound
